@@ -48,12 +48,7 @@ func runC15(e *Engine, r *Report, tier string) {
 	// embedded server's Deposit / SubmitProposal.
 	r.Rule("R8", "MsgDeposit / MsgSubmitProposal are handled by fx-core's own handlers, which reach fx-core's AddDeposit and do not forward to the embedded SDK msg server", 3, "deposit-adding gov messages")
 	{
-		var fxAdd *ssa.Function
-		for _, fn := range e.Funcs {
-			if fn.Name() == "AddDeposit" && strings.HasSuffix(fnPkgPath(fn), "x/gov/keeper") && fn.Parent() == nil {
-				fxAdd = fn
-			}
-		}
+		fxAdd := e.depositRoutine("x/gov/keeper")
 		if fxAdd == nil {
 			r.Fail("R8", "AddDeposit", "", "UNRESOLVED-ANCHOR: fx-core gov keeper has no AddDeposit")
 		}
@@ -127,7 +122,7 @@ func runC15(e *Engine, r *Report, tier string) {
 
 	gk := "x/gov/keeper"
 	// ---------- R1 ----------
-	add := e.Method(gk, "Keeper", "AddDeposit")
+	add := e.depositRoutine(gk)
 	if add == nil {
 		r.Fail("R1", "AddDeposit", "", "UNRESOLVED-ANCHOR")
 	} else {
@@ -345,6 +340,33 @@ func runC15(e *Engine, r *Report, tier string) {
 			r.Check(okStatus, "R3", k+" status", e.InstrPos(act), "activation only from the deposit period", "voting period can be (re)activated for a proposal that is not in its deposit period")
 		}
 	}
+	// ---------- R9: the default minimum that enters the threshold comes from parameters as stored ----------
+	// v1.Params is passed by value but its coin slices alias: validateInitialDeposit scales params.MinDeposit[i].Amount in
+	// place (as the SDK does). The deposit routine must take the minimum from parameters read from the store and not handed
+	// to such a mutator before — in the routine, or (when they arrive as a parameter) at every call site.
+	r.Rule("R9", "the parameters the activation threshold is taken from are read from the store and not mutated before (aliased coin slices)", 1, "source of the default minimum in the deposit routine")
+	if add != nil {
+		var src ssa.Value
+		var at ssa.Instruction
+		allCalls(add, func(c ssa.CallInstruction) {
+			if callName(c) == "GetMinDepositFromParams" || callName(c) == "GetMinDeposit" {
+				for _, a := range c.Common().Args {
+					if strings.HasSuffix(a.Type().String(), "v1.Params") {
+						src, at = a, c
+					}
+				}
+			}
+		})
+		ck := e.CanonFnKey(add) + " threshold-params"
+		if src == nil {
+			r.Fail("R9", ck, e.Pos(add.Pos()), "UNRESOLVED-ANCHOR: the deposit routine does not take the default minimum from a v1.Params value")
+		} else if why := e.paramsFresh(src, at, 0); why != "" {
+			r.Fail("R9", ck, e.InstrPos(at), "the minimum deposit that gates the voting period is taken from parameters that "+why+": the threshold is not the configured minimum")
+		} else {
+			r.Ok("R9", ck, e.InstrPos(at), "parameters read from the store, not handed to a function that rewrites their coin slices before")
+		}
+	}
+
 	md := e.perTypeMinimumFn(gk)
 	if md == nil {
 		r.Fail("R3", "per-type minimum", "", "UNRESOLVED-ANCHOR")
@@ -518,4 +540,134 @@ func (e *Engine) perTypeMinimumFn(gk string) *ssa.Function {
 		}
 		return hasCoins && hasProp
 	})
+}
+
+// depositRoutine: the gov keeper function that both moves a deposit into the module account and can activate the voting
+// period (found by its operations, so that a wrapper named AddDeposit delegating to it does not hide it).
+func (e *Engine) depositRoutine(gk string) *ssa.Function {
+	var out *ssa.Function
+	for _, fn := range e.Funcs {
+		if fn.Parent() != nil || !strings.HasSuffix(fnPkgPath(fn), gk) || isAuxPkg(fnPkgPath(fn)) {
+			continue
+		}
+		send, act := false, false
+		allCalls(fn, func(c ssa.CallInstruction) {
+			switch callName(c) {
+			case "SendCoinsFromAccountToModule":
+				send = true
+			case "ActivateVotingPeriod":
+				act = true
+			}
+		})
+		if send && act {
+			out = fn
+		}
+	}
+	return out
+}
+
+// mutatesParamsSlices: f stores into an element of a slice that is a field of one of its v1.Params parameters; returns the
+// parameter indexes.
+func (e *Engine) mutatesParamsSlices(f *ssa.Function) map[int]bool {
+	out := map[int]bool{}
+	if f.Blocks == nil {
+		return out
+	}
+	allInstrs(f, func(i ssa.Instruction) {
+		st, ok := i.(*ssa.Store)
+		if !ok {
+			return
+		}
+		// address: (FieldAddr of)* IndexAddr(X, _)
+		a := st.Addr
+		for {
+			if fa, ok := a.(*ssa.FieldAddr); ok {
+				a = fa.X
+				continue
+			}
+			break
+		}
+		ia, ok := a.(*ssa.IndexAddr)
+		if !ok {
+			return
+		}
+		for pi, p := range f.Params {
+			if !strings.HasSuffix(p.Type().String(), "v1.Params") {
+				continue
+			}
+			res := e.Slice(ia.X, SliceOpts{MaxDepth: 8}, func(x ssa.Value) Verdict {
+				if x == ssa.Value(p) {
+					return Accept
+				}
+				return Continue
+			})
+			if res.AnyAccepted() {
+				out[pi] = true
+			}
+		}
+	})
+	return out
+}
+
+// paramsFresh: "" when the v1.Params value v used at `at` was read from the store (collections Item.Get) and was not handed
+// to a function that rewrites its coin slices on a path to `at`; otherwise the reason.
+func (e *Engine) paramsFresh(v ssa.Value, at ssa.Instruction, depth int) string {
+	fn := at.Parent()
+	vk := vkey(v, 0)
+	// a mutator call on the same value that can run before `at`
+	bad := ""
+	allCalls(fn, func(c ssa.CallInstruction) {
+		if c == at || bad != "" {
+			return
+		}
+		for _, cal := range e.calleesOf(c) {
+			mut := e.mutatesParamsSlices(cal)
+			for ai, a := range c.Common().Args {
+				if mut[ai] && vkey(a, 0) == vk && (Dominates(c, at) || canReach(c, at)) {
+					bad = "were handed to " + e.FnKey(cal) + " before, which rewrites elements of their coin slices in place (the slices are shared with the caller's copy)"
+				}
+			}
+		}
+	})
+	if bad != "" {
+		return bad
+	}
+	// origin
+	fromStore, fromParam := false, (*ssa.Parameter)(nil)
+	e.Slice(v, SliceOpts{MaxDepth: 6}, func(x ssa.Value) Verdict {
+		if c, ok := x.(*ssa.Call); ok && callName(c) == "Get" && strings.Contains(recvTypeName(c), "collections.Item") {
+			fromStore = true
+			return Accept
+		}
+		if p, ok := x.(*ssa.Parameter); ok && strings.HasSuffix(p.Type().String(), "v1.Params") {
+			fromParam = p
+			return Accept
+		}
+		return Continue
+	})
+	if fromStore && fromParam == nil {
+		return ""
+	}
+	if fromParam == nil || depth > 2 {
+		return "are not read from the parameter store"
+	}
+	pidx := paramIndex(fromParam)
+	n := 0
+	for _, cs := range e.CallSites(fromParam.Parent()) {
+		if isAuxPkg(fnPkgPath(cs.Caller)) {
+			continue
+		}
+		n++
+		args := cs.Call.Common().Args
+		if cs.Call.Common().IsInvoke() || pidx >= len(args) {
+			return "reach it through a dynamic call"
+		}
+		if why := e.paramsFresh(args[pidx], cs.Call, depth+1); why != "" {
+			return "at the call in " + e.FnKey(cs.Caller) + " " + why
+		}
+	}
+	if n == 0 {
+		return "arrive as a parameter of a function without call sites"
+	}
+	return ""
 }
